@@ -735,6 +735,7 @@ def txt_strings_parsed(ctx, report, rule='C08.R16'):
                 return
     except (Unsupported, AttributeError, TypeError) as e:
         report.undecided.append('%s: DnsRecordTxt._parse not evaluable: %s' % (rule, str(e)[:100]))
+        return
     report.floor(rule, 8, 'evaluated TXT RDATA samples')
 
 
